@@ -34,7 +34,7 @@ func projectErr(err error) ErrObs {
 	add := func(ss ...string) {
 		for _, s := range ss {
 			if s != "" {
-				o.Names = append(o.Names, strings.ToLower(s))
+				o.Names = append(o.Names, token(s))
 			}
 		}
 	}
@@ -55,6 +55,17 @@ func projectErr(err error) ErrObs {
 		}
 	}
 	return o
+}
+
+// token lower-cases and keeps letters and digits only ("SAML version" -> "samlversion").
+func token(s string) string {
+	var sb strings.Builder
+	for _, r := range strings.ToLower(s) {
+		if (r >= 'a' && r <= 'z') || (r >= '0' && r <= '9') {
+			sb.WriteRune(r)
+		}
+	}
+	return sb.String()
 }
 
 func errClass(err error) string {
